@@ -5,16 +5,77 @@
 #include <stdio.h>
 #include <stdlib.h>
 
+/* Large blocks (the decoder's 3.6 MB tt array, the encoder state) come from a small pool of static slots instead of
+   the sanitizer's allocator: that one maps and unmaps fresh pages for every large request, and page faults are what
+   bounds the case rate on this machine.  The slots are manually poisoned around and after use, so overruns and
+   use after free are still reported (as use-after-poison). */
+#if defined(__has_feature)
+#if __has_feature(address_sanitizer)
+#define VG_ASAN 1
+#endif
+#endif
+#ifdef __SANITIZE_ADDRESS__
+#define VG_ASAN 1
+#endif
+#ifdef VG_ASAN
+#include <sanitizer/asan_interface.h>
+#else
+#define ASAN_POISON_MEMORY_REGION(a, n) ((void)(a), (void)(n))
+#define ASAN_UNPOISON_MEMORY_REGION(a, n) ((void)(a), (void)(n))
+#endif
+
+#define VG_SLOTS 6
+#define VG_SLOT_BYTES (4800000u)
+#define VG_RED 4096u
+static _Alignas(64) unsigned char vg_pool[VG_SLOTS][VG_RED + VG_SLOT_BYTES + VG_RED];
+static int vg_used[VG_SLOTS];
+static int vg_pool_ready;
+
 void *
 xmalloc(size_t n)
 {
-  void *p = malloc(n ? n : 1);
+  void *p;
 
+  if (n >= 65536 && n <= VG_SLOT_BYTES) {
+    int i;
+
+    if (!vg_pool_ready) {
+      ASAN_POISON_MEMORY_REGION(vg_pool, sizeof(vg_pool));
+      vg_pool_ready = 1;
+    }
+    for (i = 0; i < VG_SLOTS; i++)
+      if (!vg_used[i]) {
+        vg_used[i] = 1;
+        p = vg_pool[i] + VG_RED;
+        ASAN_UNPOISON_MEMORY_REGION(p, n);
+        return p;
+      }
+  }
+  p = malloc(n ? n : 1);
   if (!p) {
     fprintf(stderr, "glue: out of memory\n");
     abort();
   }
   return p;
+}
+
+void
+vg_free(void *p)
+{
+  unsigned char *c = p;
+
+  if (c >= (unsigned char *)vg_pool && c < (unsigned char *)vg_pool + sizeof(vg_pool)) {
+    size_t i = (size_t)(c - (unsigned char *)vg_pool) / sizeof(vg_pool[0]);
+
+    if (c != vg_pool[i] + VG_RED || !vg_used[i]) {
+      fprintf(stderr, "glue: bad or double free of a pooled block\n");
+      abort();
+    }
+    ASAN_POISON_MEMORY_REGION(vg_pool[i], sizeof(vg_pool[i]));
+    vg_used[i] = 0;
+    return;
+  }
+  free(p);
 }
 
 int
